@@ -74,6 +74,8 @@ type HTTPGroup struct {
 	domain          string
 	location        string
 	routeByHTTPUser string
+	username        string
+	password        string
 
 	// CreateConnFuncs indexed by proxy name
 	createFuncs map[string]vhost.CreateConnFunc
@@ -113,9 +115,14 @@ func (g *HTTPGroup) Register(
 		g.domain = routeConfig.Domain
 		g.location = routeConfig.Location
 		g.routeByHTTPUser = routeConfig.RouteByHTTPUser
+		g.username = routeConfig.Username
+		g.password = routeConfig.Password
 	} else {
+		// route config in the same group must be equal: requests are authenticated against the
+		// credentials of the registered route and then balanced over all members
 		if g.group != group || g.domain != routeConfig.Domain ||
-			g.location != routeConfig.Location || g.routeByHTTPUser != routeConfig.RouteByHTTPUser {
+			g.location != routeConfig.Location || g.routeByHTTPUser != routeConfig.RouteByHTTPUser ||
+			g.username != routeConfig.Username || g.password != routeConfig.Password {
 			err = ErrGroupParamsInvalid
 			return
 		}
